@@ -237,6 +237,16 @@ class Builder:
             if b.get("role"):
                 kw["role"] = getattr(self.bundle(b["of"]).roles, b["role"])
             ns[b["n"]] = self.flip_instance(b["of"], kw, b)
+        if md.get("mulbundles"):
+            # bundle instances of one type written as `a, b, c = 3 * B()`: the copies of one prototype
+            groups = {}
+            for b in md["bundles"]:
+                if not b.get("flipped") and not b.get("flipstyle") and not b.get("role"):
+                    groups.setdefault((b["of"], b["port"]), []).append(b["n"])
+            for (of, port), names in groups.items():
+                if len(names) > 1:
+                    for n, inst_ in zip(names, len(names) * self.bundle(of)(port=port)):
+                        ns[n] = inst_
         insts = {}
         for i in md["insts"]:
             tgt = self.target(i["of"], i.get("pv"))
